@@ -28,6 +28,9 @@ pub enum Until {
         #[serde(default)]
         ops: u32,
     },
+    /// park the thread at its first yield point after its `nth` library event of kind `kind`
+    /// from now (events are reported by the world through `note_event`)
+    Event { kind: u32, nth: u32 },
     /// park the thread after it completed `k` more ops
     Ops(u32),
     /// park the thread once it has completed `n` ops in total (skipped if it already has)
@@ -137,6 +140,7 @@ impl Inner {
                 self.rem = match d.until {
                     Until::Steps(k) => k,
                     Until::Site { nth, .. } => nth.max(1),
+                    Until::Event { nth, .. } => nth.max(1),
                     Until::Ops(k) => k.max(1),
                     Until::End | Until::OpIndex(_) => 0,
                 };
@@ -250,6 +254,7 @@ fn yield_hook(site: u32) {
                 inner.rem -= 1;
                 inner.rem == 0
             }
+            Some(Until::Event { .. }) => inner.rem == 0,
             _ => false,
         }
     };
@@ -257,6 +262,24 @@ fn yield_hook(site: u32) {
         let next = hand_over(&mut g, me, site);
         if next != me {
             wait_for_turn(g, me);
+        }
+    }
+}
+
+/// World: the running worker produced a library event (counts towards an `Event` directive).
+pub fn note_event(kind: u32) {
+    let me = tid();
+    if me == NOT_WORKER {
+        return;
+    }
+    let mut g = SCHED.lock().unwrap();
+    if let Some(inner) = g.as_mut() {
+        if inner.running == me {
+            if let Some(Until::Event { kind: k, .. }) = inner.cur_until {
+                if k == kind && inner.rem > 0 {
+                    inner.rem -= 1;
+                }
+            }
         }
     }
 }
